@@ -396,6 +396,26 @@ fn sweep(args: &[String]) -> i32 {
         p.config.term_capacity = 4096;
         p.config.oom_ok = false;
         p.config.probe = false;
+        // should the process die in this program, the driver turns this record (plus the last
+        // POINT line of the progress file) into a replay file of class abort
+        let pending = arg(args, "--progress").map(|f| format!("{}.pending", f));
+        let write_pending = |need: Option<RetryInfo>| {
+            if let Some(f) = pending.as_ref() {
+                let rp = Replay {
+                    engine: "E1".into(),
+                    check: check.clone(),
+                    seed,
+                    run,
+                    batch: "sweep".into(),
+                    features: features(),
+                    program: p.clone(),
+                    violation: Violation { props: vec![check.clone()], class: "abort".into(), step: 0, detail: String::new() },
+                    retry_need: need,
+                };
+                let _ = std::fs::write(f, serde_json::to_string(&rp).unwrap());
+            }
+        };
+        write_pending(None);
         let ample = run_program(&p, &RunOpts { retry_target: true, ..Default::default() });
         res.runs += 1;
         res.steps += ample.steps as u64;
@@ -406,6 +426,7 @@ fn sweep(args: &[String]) -> i32 {
         res.programs += 1;
         *res.targets.entry(p.instrs.last().map(instr_variant).unwrap_or_default()).or_default() += 1;
         let need = ample.retry;
+        write_pending(need);
         let lo = if p.config.kind == Kind::Zbdd { b.opts.max_vars + 1 } else { 0 };
         // capacities >= 100 enable the background collector thread, whose schedule E1 does
         // not control (that is engine E2's business): sweep up to 99 only
@@ -423,6 +444,10 @@ fn sweep(args: &[String]) -> i32 {
             q.config.term_capacity = t;
             q.config.oom_ok = true;
             q.config.probe = c < 100;
+            if let Some(f) = prog_f.as_mut() {
+                let _ = writeln!(f, "POINT {} {}", c, t);
+                let _ = f.flush();
+            }
             let r = run_program(&q, &RunOpts { retry_target: true, retry_need: need, ..Default::default() });
             res.runs += 1;
             res.steps += r.steps as u64;
